@@ -239,8 +239,9 @@ def post_baf(run, snap, res, args, kwargs):
     mon = "VariantArray.baf_by_ranges"
     if "alt_freq" not in snap["cols"]:
         return run.ood(mon, "no-alt_freq")
-    if snap["summary"] is not np.nanmedian or snap["above"] is not None:
-        return run.ood(mon, "non-default-summary-or-direction")
+    if snap["summary"] is not np.nanmedian:
+        return run.ood(mon, "non-default-summary")
+    above = snap["above"]          # None: the majority side of each range; True/False: the caller names the side
     recs = _het_subset(snap["recs"], snap["cols"])
     if snap["boost"] and "n_alt_freq" in snap["cols"]:
         recs = [dict(r, alt_freq=_tboost(r["alt_freq"], r["n_alt_freq"])) for r in recs]
@@ -263,6 +264,8 @@ def post_baf(run, snap, res, args, kwargs):
         m = float(np.median([abs(v - 0.5) for v in vals]))
         if len(vals) == 1:
             ok = abs(g - vals[0]) <= 1e-12 or abs(g - (1 - vals[0])) <= 1e-12     # one value: either side is 'one side'
+        elif above is not None:
+            ok = abs(g - (0.5 + m if above else 0.5 - m)) <= 1e-9
         elif abs(med - 0.5) <= 1e-9:
             ties += 1
             ok = abs(g - (0.5 + m)) <= 1e-9 or abs(g - (0.5 - m)) <= 1e-9
@@ -271,7 +274,7 @@ def post_baf(run, snap, res, args, kwargs):
         if not ok:
             side = "wrong-side" if abs(g - (0.5 - m if med > 0.5 else 0.5 + m)) <= 1e-9 else "value"
             return run.violate(mon, f"baf-{side}" + bt, f"{c}:{s}-{e}: BAF {g}, median of the {len(vals)} frequencies mirrored to the majority side is {0.5 + m if med > 0.5 else 0.5 - m}", wit)
-    run.held(mon, "baf:" + ("boost" if snap["boost"] else "plain"))
+    run.held(mon, "baf:" + ("boost" if snap["boost"] else "plain") + ("" if above is None else ":side-given"))
 
 
 def pre_va(run, args, kwargs):
